@@ -106,7 +106,7 @@ func handleSASL(c *Client, e Event) {
 	// acknowledgement response to let the server know that we're done.
 	for {
 		if len(auth) > saslChunkSize {
-			c.write(&Event{Command: AUTHENTICATE, Params: []string{auth[0 : saslChunkSize-1]}, Sensitive: true})
+			c.write(&Event{Command: AUTHENTICATE, Params: []string{auth[0:saslChunkSize]}, Sensitive: true})
 			auth = auth[saslChunkSize:]
 			continue
 		}
